@@ -813,15 +813,22 @@ def check_positions(chk, prog, unit):
         objd = f.params[1]["d"]
         g = engine(f)
         payload = set()
+        payload_sites = {}          # local -> nodes that give it the caller's element (the same local may hold padding nodes before)
         for x in walk(f.body):
             if x.get("k") == "call" and re.search(r"_item_set_data$", X.callee_name(x) or ""):
                 a = x["ch"][1:]
                 if len(a) == 2 and X.strip(a[1]).get("d") == objd and X.strip(a[0]).get("k") == "ref":
                     payload.add(X.strip(a[0])["d"])
+                    payload_sites.setdefault(X.strip(a[0])["d"], []).append(x)
             if x.get("k") == "assign" and x.get("op") == "=":
                 l, r = X.strip(x["ch"][0]), X.strip(x["ch"][1])
                 if l.get("k") == "member" and l.get("n") == "data" and r.get("d") == objd and X.strip(l["ch"][0]).get("k") == "ref":
                     payload.add(X.strip(l["ch"][0])["d"])
+                    payload_sites.setdefault(X.strip(l["ch"][0])["d"], []).append(x)
+
+        def holds_payload(d, at):
+            """the local was given the element on every path to this store (the hand-over dominates it)"""
+            return any(g.cfg.node_dominates(s_["i"], at["i"]) for s_ in payload_sites.get(d, ()))
         app = slotfn(prog, unit, "list", "append")
         pre = slotfn(prog, unit, "list", "prepend")
         refusals = null_arm_sites(f)
@@ -846,7 +853,7 @@ def check_positions(chk, prog, unit):
                            "idx == 0 entailed at the call")
             if n.get("k") == "assign" and n.get("op") == "=":
                 r = X.strip(final_rhs(n))
-                if r.get("k") == "ref" and r.get("d") in payload:
+                if r.get("k") == "ref" and r.get("d") in payload and holds_payload(r["d"], n):
                     for l in store_targets(n):
                         if l.get("k") == "member" and l.get("n") == "next":
                             p = g.pos(l["ch"][0])
@@ -1214,58 +1221,69 @@ def check_iterators(chk, prog, units=UNITS):
 
 
 def check_dup_backlinks(chk, prog, unit="dlinked_list.c", only=None, rule="L7"):
-    """L7: in the doubly linked dup functions every node the copy acquires after the head (X->next = item_dup(..)) has its
-    prev link stored before the function returns - as (X->next)->prev while it is still reached through X, or as Y->prev after a
-    cursor Y has moved onto it.  A missing back link only shows when the copy is walked from its tail."""
+    """L7: in the doubly linked dup functions (and the unit-local helpers they hand the copying to) every node the copy acquires
+    after the head (X->next = item_dup(..)) has its prev link stored before the function returns - as (X->next)->prev while it is
+    still reached through X, or as Y->prev after a cursor Y has moved onto it.  A missing back link only shows when the copy is
+    walked from its tail."""
     u = prog.units[unit]
     n = 0
-    for f in u.functions.values():
-        if not re.search(r"_dup$", f.name) or "_item_" in f.name or "iterator" in f.name or (only is not None and f.name not in only):
+    for f0 in u.functions.values():
+        if not re.search(r"_dup$", f0.name) or "_item_" in f0.name or "iterator" in f0.name or (only is not None and f0.name not in only):
             continue
-        cfg = nullness.prepared_cfg(f, NORETURN)
-        creations = []
-
-        def key_of(e):
-            return canon(f, X.strip(e))
-
-        def transfer(state, x, blk):
-            if x.get("k") == "assign" and x.get("op") == "=":
-                l, r = X.strip(x["ch"][0]), X.strip(x["ch"][1])
-                st = set(state)
-                # creation through a next link
-                if l.get("k") == "member" and l.get("n") == "next" and r is not None and r.get("k") == "call" and re.search(r"_item_dup$|_item_new$", X.callee_name(r) or ""):
-                    st.add(("pending", key_of(l)))
-                    creations.append(x)
-                    return frozenset(st)
-                # back link stored
-                if l.get("k") == "member" and l.get("n") == "prev":
-                    k_ = key_of(l["ch"][0])
-                    st = {t for t in st if not (t[0] == "pending" and t[1] == k_)}
-                    return frozenset(st)
-                # a cursor moves:  Y = E  renames pending(E) to pending(Y) (and what was pending under Y->.. is out of reach)
-                if l.get("k") == "ref" and l.get("rk") == "local":
-                    ky, ke = key_of(l), key_of(r) if r is not None else None
-                    st2 = set()
-                    for t in st:
-                        if t[0] == "pending" and t[1] == ke:
-                            st2.add(("pending", ky))
-                        else:
-                            st2.add(t)
-                    return frozenset(st2)
-            return state
+        any_creation = False
         bad = []
+        for f in unit_closure(f0):
+            if f.cfg is None or "_item_" in f.name:
+                continue
+            cfg = nullness.prepared_cfg(f, NORETURN)
+            creations = []
 
-        def visit(state, x, blk):
-            if x.get("k") == "return" and x.get("val") is not None and not X.is_null_const(x["val"]):
-                if any(t[0] == "pending" for t in state):
-                    bad.append(x)
-        flow.forward(cfg, frozenset(), transfer, join=lambda a, b: a | b, visit=visit)
-        if not creations:
+            def key_of(e, f=f):
+                return canon(f, X.strip(e))
+
+            def transfer(state, x, blk, creations=creations, key_of=key_of):
+                if x.get("k") == "assign" and x.get("op") == "=":
+                    l, r = X.strip(x["ch"][0]), X.strip(x["ch"][1])
+                    st = set(state)
+                    # creation through a next link
+                    if l.get("k") == "member" and l.get("n") == "next" and r is not None and r.get("k") == "call" and re.search(r"_item_dup$|_item_new$", X.callee_name(r) or ""):
+                        st.add(("pending", key_of(l)))
+                        creations.append(x)
+                        return frozenset(st)
+                    # back link stored
+                    if l.get("k") == "member" and l.get("n") == "prev":
+                        k_ = key_of(l["ch"][0])
+                        st = {t for t in st if not (t[0] == "pending" and t[1] == k_)}
+                        return frozenset(st)
+                    # a cursor moves:  Y = E  renames pending(E) to pending(Y) (and what was pending under Y->.. is out of reach)
+                    if l.get("k") == "ref" and l.get("rk") == "local":
+                        ky, ke = key_of(l), key_of(r) if r is not None else None
+                        st2 = set()
+                        for t in st:
+                            if t[0] == "pending" and t[1] == ke:
+                                st2.add(("pending", ky))
+                            else:
+                                st2.add(t)
+                        return frozenset(st2)
+                return state
+
+            def visit(state, x, blk, f=f):
+                if x.get("k") == "return" and not (x.get("val") is not None and X.is_null_const(x["val"])):
+                    if any(t[0] == "pending" for t in state):
+                        bad.append((f, x))
+            ins = flow.forward(cfg, frozenset(), transfer, join=lambda a, b: a | b, visit=visit)
+            # a helper without a return statement: the state that reaches the function's end
+            ex = ins.get(cfg.exit)
+            if ex and any(t[0] == "pending" for t in ex) and not any(x.get("k") == "return" for x in walk(f.body)):
+                bad.append((f, f.body))
+            if creations:
+                any_creation = True
+        if not any_creation:
             continue
         n += 1
-        chk.ob(rule, f.name, "copied-nodes-back-linked", not bad, loc=f.loc(bad[0]) if bad else f.loc(f.body),
+        chk.ob(rule, f0.name, "copied-nodes-back-linked", not bad, loc=bad[0][0].loc(bad[0][1]) if bad else f0.loc(f0.body),
                detail="%s returns a copy in which a node it created through a next link never had its prev link stored (the last node of "
-                      "the chain, typically): walking the copy backwards from its tail stops there" % f.name,
+                      "the chain, typically): walking the copy backwards from its tail stops there" % (bad[0][0].name if bad else f0.name),
                proof="every node created through X->next has a store to its prev before the return")
     return n
 
@@ -1277,12 +1295,37 @@ def check_bisection(chk, prog, fns, noreturn, rule="Q1"):
     from .cap import Cap
     from .capcheck import run_cap
 
+    INV = {"<=": ">", "<": ">=", ">=": "<", ">": "<="}
+
+    def loop_cond(lp):
+        """(op, a, b) of the loop condition with a leading negation folded in, or None"""
+        c = X.strip(lp["cond"])
+        neg = False
+        while c is not None and c.get("k") == "un" and c.get("op") == "!":
+            neg = not neg
+            c = X.strip(c["ch"][0])
+        if c is None or c.get("k") != "bin" or c.get("op") not in INV:
+            return None
+        return (INV[c["op"]] if neg else c["op"]), c["ch"][0], c["ch"][1]
+
+    def interval_vars(lp):
+        vs = {y["d"] for y in walk(lp["cond"]) if y.get("k") == "ref" and y.get("rk") in ("local", "param")}
+        for y in walk(lp["body"]):
+            # the probe: assigned from the halving expression
+            if y.get("k") == "assign" and X.strip(y["ch"][0]).get("k") == "ref" and \
+                    any(z.get("k") == "bin" and z.get("op") in ("/", ">>") and X.const_val(z["ch"][1]) in (1, 2) for z in walk(y["ch"][1])):
+                vs.add(X.strip(y["ch"][0])["d"])
+            if y.get("k") == "decl":
+                for dcl in y.get("decls", ()):
+                    if dcl.get("init") is not None and any(z.get("k") == "bin" and z.get("op") in ("/", ">>") and X.const_val(z["ch"][1]) in (1, 2) for z in walk(dcl["init"])):
+                        vs.add(dcl["d"])
+        return vs
+
     def bisection_loops(f):
         out = []
         for lp in walk(f.body):
             if lp.get("k") in ("for", "while") and lp.get("cond") is not None and lp.get("body") is not None:
-                c = X.strip(lp["cond"])
-                if c.get("k") == "bin" and c.get("op") in ("<=", "<", ">=", ">") and \
+                if loop_cond(lp) is not None and \
                         any(y.get("k") == "bin" and y.get("op") in ("/", ">>") and X.const_val(y["ch"][1]) in (1, 2) for y in walk(lp["body"])):
                     out.append(lp)
         return out
@@ -1291,24 +1334,70 @@ def check_bisection(chk, prog, fns, noreturn, rule="Q1"):
         def on_break(self, n, st):
             if not self.loop_stack or not self.record:
                 return
-            lp = self.loop_stack[-1]
+            if n.get("k") == "return":
+                # a return leaves every enclosing construct: the innermost enclosing bisection loop of the function being run
+                lps = [x for x in self.loop_stack if any(x is b for b in self.bisect)]
+                if not lps:
+                    return
+                lp = lps[-1]
+            else:
+                lp = self.loop_stack[-1]
             if not any(lp is b for b in self.bisect):
                 return
-            c = X.strip(lp["cond"])
+            # only an exit decided by the interval itself (`if (hi == -1) break;`, `if (probe == 0) ..`) is examined; leaving
+            # on the comparison result (the match) is the other legitimate way out
+            iv = interval_vars(lp)
+            ctl = None
+            fn_ = self.cur_fn
+            cur = n
+            while cur is not None and cur is not lp:
+                par = fn_.parent.get(cur["i"])
+                if par is not None and par.get("k") == "if" and par.get("cond") is not None:
+                    ctl = par
+                    break
+                cur = par
+            if ctl is None or not any(y.get("k") == "ref" and y.get("d") in iv for y in walk(ctl["cond"])):
+                return
+            op_, ca, cb = loop_cond(lp)
             s0 = st.copy()
             rs = self.record
             self.record = False
             try:
-                la = self.ev(c["ch"][0], s0)
-                lb = self.ev(c["ch"][1], la[0][0]) if len(la) == 1 else []
+                # `if (probe == 0) return NOT_FOUND;  hi = probe - 1;` tests before it narrows: the interval that matters is the
+                # one the narrowing statements that follow the guard in the same block would have left
+                anchor_ = ctl
+                blk_ = fn_.parent.get(ctl["i"])
+                while blk_ is not None and blk_.get("k") in ("case", "default", "label"):
+                    anchor_ = blk_            # `default: if (..) ..;` - the statements that follow are siblings of the label
+                    blk_ = fn_.parent.get(blk_["i"])
+                if blk_ is not None and blk_.get("k") == "block":
+                    sib = blk_.get("ch", [])
+                    k_ = [i_ for i_, x_ in enumerate(sib) if x_ is anchor_]
+                    for x_ in (sib[k_[0] + 1:] if k_ else []):
+                        if x_.get("k") == "assign" and X.strip(x_["ch"][0]).get("k") == "ref" and X.strip(x_["ch"][0]).get("d") in iv:
+                            r_ = self.ev(x_, s0)
+                            if len(r_) != 1:
+                                return
+                            s0 = r_[0][0]
+                        else:
+                            break
+                la = self.ev(ca, s0)
+                lb = self.ev(cb, la[0][0]) if len(la) == 1 else []
             finally:
                 self.record = rs
             if len(la) != 1 or len(lb) != 1 or la[0][1][0] != "i" or lb[0][1][0] != "i":
                 return
             a, b = la[0][1][1], lb[0][1][1]
-            goal = {"<=": a - b - 1, "<": a - b, ">=": b - a - 1, ">": b - a}[c["op"]]
-            self.oblige(st, "exit", n, goal, "the loop is left while `%s` still holds: the candidates in between are never examined" % X.render(c)[:40])
-    bis_fns = [f for f in fns if f.cfg is not None and bisection_loops(f)]
+            goal = {"<=": a - b - 1, "<": a - b, ">=": b - a - 1, ">": b - a}[op_]
+            self.oblige(s0, "exit", n, goal, "the loop is left while `%s` still holds: the candidates in between are never examined" % X.render(lp["cond"])[:40])
+    # the search may sit in a unit-local helper of the slot function
+    seen_, allf = set(), []
+    for f in fns:
+        for g_ in unit_closure(f):
+            if g_.name not in seen_:
+                seen_.add(g_.name)
+                allf.append(g_)
+    bis_fns = [f for f in allf if f.cfg is not None and bisection_loops(f)]
     if not bis_fns:
         return 0, 0
 
